@@ -52,6 +52,8 @@ def run(ctx):
     cases = plsssoup.model_cases(ctx, 4 if thorough else 3, plsssoup.ALL_CONFIGS, keep=0.5 if thorough else 1.0)
     ctx.exhaustive = not thorough
     plsssoup.judge(ctx, PROP, cases)
+    # the marker-walk model (spec/PlssWalk.tla): design invariants + replay of every terminal state (drift only)
+    plsssoup.walk_conformance(ctx, 4 if thorough else 3, keep=0.3 if thorough else 1.0)
     # longer sequences over the core alphabet: every arrangement of marker words around one Twp/Rge and sections
     more = plsssoup.model_cases(ctx, 6 if thorough else 5,
                                 ["default", "segment", "secwithin", "seg_within", "within_req", "cautious", "f_S_desc_TR",
